@@ -27,6 +27,7 @@ CHECK_DEADLOCK FALSE
 
 def classes(ctx, thorough, maxdim=None):
     md = maxdim or (5 if thorough else 4)
+    ctx.notes["reflectors_certified_by_TLC"] = E.check_against_tlc(ctx)
     vals = "0, 2, 3, 5"
     res = ctx.model("Spectral", MCFG % (md, vals, "LamsT" if thorough else "LamsQ", 3 if thorough and md <= 4 else 2),
                     dump=True, timeout=1800)
